@@ -8,5 +8,6 @@ CONSTANTS
   MirrorAboutSpan = TRUE
   TrimTracksStart = TRUE
   FreshReverser = TRUE
+VIEW View
 INVARIANTS PureLaws
 CHECK_DEADLOCK FALSE
